@@ -572,6 +572,31 @@ def nontrivial(op, out):
     return op if int(t[1]) >= 1 else None
 
 
+HARNESS_SOURCES = [os.path.join(C.VERIF, 'harness', 'c07.cpp')] + C.repo_lib_sources(
+    ['outer/internal/alm-helpers.cpp', 'outer/alm.cpp', 'problem/type-erased-problem.cpp',
+     'util/demangled-typename.cpp', 'util/print.cpp', 'inner/internal/solverstatus.cpp',
+     'problem/problem-counters.cpp'])
+
+
+def replay(r):
+    """`checks/replay.py <file>`: re-run the recorded op on the current tree (harness + driver + monitor)."""
+    op = (r.get('payload') or {}).get('op')
+    if not op:
+        print('[C07] replay: no op recorded (broken obligation / tie); re-run checks/c07.py')
+        return 1
+    exe, log = C.build_exe('c07', HARNESS_SOURCES)
+    if exe is None:
+        print('[C07] replay: harness does not build: ' + log[-800:])
+        return 1
+    hout, _, _ = C.run_lines(exe, [op])
+    dout, _, _ = C.run_lines(C.driver_exe('drv_c07'), [op])
+    print('impl :', hout[0] if hout else None)
+    print('model:', dout[0] if dout else None)
+    m = monitor_(op, hout[0], {}) if hout else 'no output'
+    print('monitor:', m)
+    return 1 if (m or hout != dout) else 0
+
+
 if __name__ == '__main__':
     sys.exit(C.standard_check(
         'C07', sys.argv,
@@ -581,10 +606,7 @@ if __name__ == '__main__':
                        'Alpaqa/Model/C07.lean', 'Alpaqa/Model/C15.lean', 'Alpaqa/Proofs/C07.lean',
                        'Alpaqa/Proofs/Basic.lean', 'Alpaqa/Props/C15.lean'],
         harness_name='c07',
-        harness_sources=[os.path.join(C.VERIF, 'harness', 'c07.cpp')] + C.repo_lib_sources(
-            ['outer/internal/alm-helpers.cpp', 'outer/alm.cpp', 'problem/type-erased-problem.cpp',
-             'util/demangled-typename.cpp', 'util/print.cpp', 'inner/internal/solverstatus.cpp',
-             'problem/problem-counters.cpp']),
+        harness_sources=HARNESS_SOURCES,
         gen_ops=gen_ops, monitor=monitor, nontrivial=nontrivial, extra_stage=extra_stage,
         n_quick=3000, n_thorough=40000,
         trusted_base=[
